@@ -1346,10 +1346,23 @@ class SymEx:
                 out.append((x, x.heap[k]))
                 continue
             if b[0] == 'mod':
+                q = '%s.%s' % (b[1], e.attr)
+                if q in self.M.funcs and isinstance(e.ctx, ast.Load):
+                    out.append((x, ('fn', q)))            # module.function used as a value
+                    continue
+                g = self.M.mod_globals.get(b[1], {}).get(e.attr)
+                if g is not None and isinstance(e.ctx, ast.Load) and b[1].split('.')[-1] != 'settings':
+                    gv = self._global_term(b[1], e.attr, g)
+                    if gv is not None:
+                        out.append((x, gv))
+                        continue
                 out.append((x, k))
                 continue
             if b[0] == 'ext':
                 name = b[1] + '.' + e.attr
+                if name in _NUM_CONSTS:
+                    out.append((x, num(_NUM_CONSTS[name])))
+                    continue
                 out.append((x, ('ext', T.API_CLASS.get(name, name))))
                 continue
             if b[0] == 'new':
@@ -1448,7 +1461,7 @@ class SymEx:
         if used:
             y = y.copy()
             y.env.update(used)
-        return [(y, _fuse_comp(('comp', kind, elt, tuple(gens))))]
+        return [(y, _unroll_const_comp(_fuse_comp(('comp', kind, elt, tuple(gens)))))]
 
     # ------------------------------------------------------------------ calls
     def bind(self, callee, args, kwargs, skip_self=True):
@@ -1981,6 +1994,12 @@ class SymEx:
                 return [(st, self.subscript(args[0], args[1], st))]
             if opn in ('abs', 'index') and len(args) == 1:
                 return [(st, ('call', ('ext', 'ABS'), (args[0],), ())) if opn == 'abs' else (st, args[0])]
+        if fv == ('ext', 'DICT') and len(args) == 1 and not kws and args[0][0] in ('list', 'tuple') and \
+                all(z[0] == 'tuple' and len(z[1]) == 2 for z in args[0][1]):
+            d_ = {}
+            for z in args[0][1]:
+                d_[z[1][0]] = z[1][1]
+            return [(st, ('dict', tuple(d_.items())))]
         if fv == ('ext', 'DICT') and len(args) == 1 and not kws:
             dc = _dict_of_zip(args[0], self.bv_depth)
             if dc is not None:
@@ -2220,6 +2239,58 @@ def _table_like(n):
 
 
 _EMPTY_FOLD = {'SUM': ZERO, 'LEN': ZERO, 'ANY': ('const', 'False'), 'ALL': ('const', 'True')}
+
+
+_NUM_CONSTS = {'calendar.MONDAY': 0, 'calendar.TUESDAY': 1, 'calendar.WEDNESDAY': 2, 'calendar.THURSDAY': 3, 'calendar.FRIDAY': 4, 'calendar.SATURDAY': 5,
+               'calendar.SUNDAY': 6}
+
+
+def _const_items(it):
+    """the elements of a constant iterable (range of literals, literal sequence), else None"""
+    it = _literal_rows(it)
+    if it[0] == 'call' and it[1] == ('ext', 'RANGE') and 1 <= len(it[2]) <= 3 and not it[3] and all(a[0] == 'num' and a[1].denominator == 1 for a in it[2]):
+        r = range(*[int(a[1]) for a in it[2]])
+        return [num(v) for v in r] if len(r) <= 16 else None
+    if it[0] in ('list', 'tuple') and len(it[1]) <= 16 and all(z[0] in ('num', 'str', 'const', 'tuple') for z in it[1]):
+        return list(it[1])
+    return None
+
+
+def _unroll_const_comp(c):
+    """a comprehension over a constant iterable is the literal it builds: {d: s for d in range(0, 5)} == {0: s, 1: s, 2: s, 3: s, 4: s}"""
+    if c[0] != 'comp' or len(c[3]) != 1:
+        return c
+    shape, it, ifs = c[3][0]
+    items = _const_items(it)
+    if items is None or not all(z[0] == 'bv' for z in shape):
+        return c
+    out = []
+    for v in items:
+        if len(shape) == 1:
+            m = {shape[0]: v}
+        elif v[0] == 'tuple' and len(v[1]) == len(shape):
+            m = dict(zip(shape, v[1]))
+        else:
+            return c
+        rep = lambda z: m.get(z) if z[0] == 'bv' else None
+        keep = True
+        for q in ifs:
+            tv = truth(T.replace(q, rep))
+            if tv is None:
+                return c
+            keep = keep and tv
+        if keep:
+            out.append(T.replace(c[2], rep))
+    if c[1] == 'dict':
+        if not all(o[0] == 'tuple' and len(o[1]) == 2 for o in out):
+            return c
+        d = {}
+        for o in out:
+            d[o[1][0]] = o[1][1]
+        return ('dict', tuple(d.items()))
+    if c[1] == 'set':
+        return ('set', tuple(dict.fromkeys(out)))
+    return ('list', tuple(out))
 
 
 def _fuse_comp(c):
